@@ -4,6 +4,7 @@ import (
 	"fmt"
 
 	"github.com/privacybydesign/gabi/big"
+	"github.com/privacybydesign/gabi/internal/common"
 )
 
 func init() {
@@ -39,4 +40,88 @@ func vpC05_O1() {
 	vpAssert("randomized signature verifies", r1.Verify(pk, ms))
 	r2, _ := r1.Randomize(pk)
 	vpAssert("twice randomized signature verifies", r2.Verify(pk, ms))
+}
+
+func init() {
+	vpHarnesses["vpC05_O2"] = vpC05_O2
+	vpHarnesses["vpC05_O3"] = vpC05_O3
+}
+
+// vpxPrimeNear: natively the next probable prime >= x (so that a solver-chosen
+// exponent can be replayed with a real prime of the same magnitude);
+// symbolically x itself, assumed prime.
+func vpxPrimeNear(x *big.Int) *big.Int {
+	p := new(big.Int).Set(x)
+	if p.Bit(0) == 0 {
+		p.Add(p, big.NewInt(1))
+	}
+	for !p.ProbablyPrime(30) {
+		p.Add(p, big.NewInt(2))
+	}
+	return p
+}
+
+// C05-O2: signatures forged with the issuer's private key so that the
+// signature equation holds for an arbitrary exponent e2 (prime or composite,
+// anywhere): Verify accepts only if e2 is prime and inside
+// [2^(le-1), 2^(le-1)+2^(le'-1)].
+func vpC05_O2() {
+	pk, sk := vpKeys(0, 3, 1024, false)
+	ms := vpMessages("m", 2, 256)
+	sig, err := SignMessageBlock(sk, pk, ms)
+	vpAssume(err == nil)
+	e2 := vpBigBits("e2", 700)
+	prime := vpBool("e2prime")
+	if prime {
+		e2 = vpxPrimeNear(e2)
+	} else {
+		vpAssume(!vpIsPrime(e2))
+	}
+	vpAssume(e2.Sign() > 0)
+	// A2 = (A^e)^(1/e2): the equation A2^e2 R S^v = Z holds by construction
+	Q := new(big.Int).Exp(sig.A, sig.E, pk.N)
+	d, ok := common.ModInverse(e2, sk.Order)
+	vpAssume(ok)
+	forged := &CLSignature{A: new(big.Int).Exp(Q, d, pk.N), E: e2, V: sig.V}
+	start := new(big.Int).Lsh(big.NewInt(1), pk.Params.Le-1)
+	end := new(big.Int).Add(start, new(big.Int).Lsh(big.NewInt(1), pk.Params.LePrime-1))
+	inRange := e2.Cmp(start) >= 0 && e2.Cmp(end) <= 0
+	accepted := forged.Verify(pk, ms)
+	vpAssert("equation-satisfying signature accepted only with a prime exponent inside the interval", !accepted || (inRange && prime))
+	if inRange && prime {
+		vpAssert("equation-satisfying signature with a proper exponent is accepted", accepted)
+	}
+}
+
+// C05-O3: an honest signature does not verify against a message block that
+// differs in one entry, with a keyshare contribution it was not made for, or
+// under another public key.
+func vpC05_O3() {
+	pk, sk := vpKeys(0, 3, 1024, false)
+	pk1, _ := vpKeys(1, 3, 1024, false)
+	ms := vpMessages("m", 2, 300)
+	sig, err := SignMessageBlock(sk, pk, ms)
+	vpAssume(err == nil)
+	switch vpChoose("alteration", 5) {
+	case 0:
+		j := vpChoose("j", 2)
+		other := append([]*big.Int{}, ms...)
+		other[j] = vpBigBits("other", 300)
+		vpAssume(vpEff(other[j], pk).Cmp(vpEff(ms[j], pk)) != 0)
+		vpAssert("other message block rejected", !sig.Verify(pk, other))
+	case 1:
+		vpAssert("shorter message block rejected", !sig.Verify(pk, ms[:1]) || vpEff(ms[1], pk).Sign() == 0)
+	case 2:
+		ks := vpBigBits("ks", 255)
+		vpAssume(ks.Sign() > 0)
+		withP := &CLSignature{A: sig.A, E: sig.E, V: sig.V, KeyshareP: new(big.Int).Exp(pk.R[0], ks, pk.N)}
+		vpAssert("foreign keyshare contribution rejected", !withP.Verify(pk, ms))
+	case 3:
+		vpAssert("other public key rejected", !sig.Verify(pk1, ms))
+	case 4:
+		d := vpBig("d")
+		vpAssume(d.Sign() != 0)
+		alt := &CLSignature{A: sig.A, E: sig.E, V: new(big.Int).Add(sig.V, d)}
+		vpAssert("altered v rejected", !alt.Verify(pk, ms))
+	}
 }
